@@ -89,7 +89,7 @@ def run_scenario(item) -> dict:
             mtl_backward([B.node(l) for l in scn["losses"]], [B.node(f) for f in scn["feats"]], agg,
                          tasks_params=[present([B.node(p) for p in tp], how) for tp in scn["tparams"]],
                          shared_params=present([B.node(s) for s in scn["shared"]], how),
-                         retain_graph=True, parallel_chunk_size=k)
+                         retain_graph=retain, parallel_chunk_size=k)
     except Exception as e:                                  # noqa: BLE001
         exc = e
     s1 = snapshot(B, B.leaves())
@@ -216,7 +216,7 @@ def random_episode(item):
                          Constant(torch.arange(float(max(len(losses), 1)), dtype=torch.float64)),
                          tasks_params=[present([B.node(p) for p in tp], rng.choice(PRES)) for tp in tparams],
                          shared_params=present([B.node(s) for s in shared], rng.choice(PRES)),
-                         retain_graph=True, parallel_chunk_size=k)
+                         retain_graph=rng.random() < 0.5, parallel_chunk_size=k)
         except Exception as e:                              # noqa: BLE001
             exc = e
         desc = {"fn": "mtl", "fault": fault, "pos": pos, "task": ti, "prog": prog, "feats": feats, "losses": losses,
